@@ -33,6 +33,7 @@ type vfHistArgs struct {
 	Variants       string
 	GCMonitor      bool
 	Prop           string // the property this run decides ("c03", "c18", "c13")
+	Damage         bool   // GC histories: before some passes one superseded record is corrupted on disk
 	PosSweep       bool   // C02 thorough: reopen after EVERY prefix of a short history (n+1 runs of an n-op history)
 }
 
@@ -103,6 +104,19 @@ func vfHistories(env *vfc.Env, prefix string, extra func(c *vfHistCase, sut *vfS
 			c.Ops = model.GenGCScenario(r, c.Keys, o)
 		} else {
 			c.Ops = model.GenHistory(r, c.Keys, o)
+		}
+		if a.Damage {
+			// bit rot in garbage: before some GC passes a record that is no key's current record
+			// is corrupted on disk (separate random stream: the history itself is unchanged)
+			rd := r.Split(777)
+			var ops2 []model.Op
+			for _, op := range c.Ops {
+				if op.K == "gc" && rd.Intn(3) == 0 {
+					ops2 = append(ops2, model.Op{K: "flush"}, model.Op{K: "damage", Sel: rd.Uint64() % 1000000})
+				}
+				ops2 = append(ops2, op)
+			}
+			c.Ops = ops2
 		}
 		if a.Collide > 0 {
 			// colliding keys are written with revision 0 only (the shared tree slot has one version counter)
